@@ -179,7 +179,7 @@ def check(prog: Program, tier: str) -> Result:
     _c05.adopt_memo_rule(prog, res, "R18.10", anchors,
                          "import normalisation must hold for ANY layout of the imported packages: a memoised lookup answers for the layout of an earlier call "
                          "(another working directory, an edited or moved module), so star-imports are expanded to names the module no longer exports")
-    res.floors.update({"R18.1": 6, "R18.2": 2, "R18.4": 1, "R18.5": 1, "R18.10": 3, "R18.11": 2, "R18.12": 1, "R18.13": 3, "R18.14": 1, "R18.15": 3, "R18.16": 1, "R18.17": 2})
+    res.floors.update({"R18.1": 6, "R18.2": 2, "R18.4": 1, "R18.5": 1, "R18.10": 3, "R18.11": 2, "R18.12": 1, "R18.13": 3, "R18.14": 2, "R18.15": 3, "R18.16": 1, "R18.17": 2})
     res.analysed["importfrom_constructions"] = n
     return res
 
@@ -569,6 +569,25 @@ def _r18_12(prog: Program, res: Result) -> None:
                    "only imports whose bound names are not defined in the module are moved" if free else
                    "an import is moved to module level although the module has a variable (function, class) of the name it binds: the hoisted `import json` and the module-level "
                    "`json = {..}` overwrite each other")
+        # ... and free of OTHER IMPORTS that bind the name to something else (`from a import x` at module level, `from b import x`
+        # in a function): the moved set is filtered by a collection computed from the import statements of the whole module
+        # (aliases read: .names / .asname), found through the call graph, not by name
+        other_imports = False
+        for nm in seen:
+            for _s, v in bindings(fn).get(nm, []):
+                if v is None:
+                    continue
+                for c_ in ast.walk(v):
+                    if isinstance(c_, ast.Call):
+                        r_ = prog.resolve_call(c_.func, fn.mod, fn)
+                        if r_ and r_[0] == "fn":
+                            body = norm(r_[1].node)
+                            if ".names" in body and ".asname" in body and ("ImportFrom" in body or "Import" in body) and ("module" in body) and "len(" in body:
+                                other_imports = True
+        res.decide(other_imports, "R18.14", fn.loc(lp), fn.fq, f"for {lp.target.id} in {short(lp.iter, 50)} # names bound by other imports",
+                   "imports whose bound name another import binds to something else are not moved" if other_imports else
+                   "an import is moved to module level although another import binds the same name to something else there (only variables count as taken): "
+                   "`from a import x` at module level and `from z import x` inside a function - after the move one of the two wins for the whole module")
         removed = [t for t in texts if (t.startswith("-= ") or t.startswith("skip if ") or " if " in t) and "Try" in t] or \
                   [t for t in texts if "Try" in t and any(u.startswith("-= ") or u.startswith("skip if ") for u in texts)]
         ok = bool(removed)
@@ -971,6 +990,7 @@ def _r18_6(prog: Program, res: Result) -> None:
 from ..selftest import Variant  # noqa: E402
 
 VARIANTS = [
+    Variant("imports-hoisted-over-imports-of-the-same-name", "FIRE", "fixes", "    ambiguous_names = _names_imported_from_several_origins(root)\n    imports_movable_to_toplevel = {\n        node\n        for node in imports_movable_to_toplevel\n        if ambiguous_names.isdisjoint(\n            (alias.asname or alias.name).split(\".\")[0] for alias in node.names\n        )\n    }\n", "", "R18.14"),
     Variant("dotted-import-unused-when-the-bare-package-is-imported-somewhere", "FIRE", "fixes", '    return {name for name in imports - names - {"*"} if name.split(".")[0] not in names}\n',
             '    return {\n        name\n        for name in imports - names - {"*"}\n        if name.split(".")[0] not in names or ("." in name and name.split(".")[0] in imports)\n    }\n', "R18.9"),
     Variant("unused-imports-filtered-by-a-further-conjunct", "SILENT", "fixes", '    return {name for name in imports - names - {"*"} if name.split(".")[0] not in names}\n',
